@@ -1034,6 +1034,11 @@ func runC16(c *Ctx) {
 			c16RefreshWithEvent(c, i, []string{"local-query", "peers-query"}[i%2])
 		}
 	}
+	for i := 0; i < c.Pick(2, 60); i++ {
+		if j := next(); c.Mine(j) {
+			c16NodeJoinsDuringRefresh(c, i)
+		}
+	}
 	for i := 0; i < c.Pick(1, 30); i++ {
 		if j := next(); c.Mine(j) {
 			c16Readiness(c, i)
@@ -1045,6 +1050,72 @@ func runC16(c *Ctx) {
 // c16RefreshWithEvent: a schema-change event reaches the control connection while the proxy is running the refresh
 // queries that a topology change triggered. The refresh must still complete on that connection (system.peers re-queried,
 // the new node connected) instead of the control connection being given up.
+// c16NodeJoinsDuringRefresh: a node joins while a refresh is under way - its NEW_NODE event is written on the control
+// connection after the control node has read its peers table for the refresh query but before that answer is sent, so the
+// answer does not list the node yet. The event must not be lost: the node gets its pooled connections after the next window.
+func c16NodeJoinsDuringRefresh(c *Ctx, idx int) {
+	r := c.R
+	scenario := map[string]interface{}{"kind": "node-joins-during-refresh", "idx": idx}
+	c.Step("c16 node-joins-during-refresh idx=%d", idx)
+	bed, err := px.NewBed(px.BedConfig{Hosts: 4, NumConns: 1, Keyspaces: []string{"ks1"}, Unlisted: []int{3, 4}, RefreshWindow: 20 * time.Millisecond,
+		ReconnectBase: time.Millisecond, ReconnectMax: 3 * time.Millisecond, ConnectTimeout: 3 * time.Second})
+	if err != nil {
+		r.Inconc("c16: cannot start bed: " + err.Error())
+		return
+	}
+	defer bed.Close()
+	if !waitFor(func() bool { return len(bed.Cluster.EstablishedControlConns()) == 1 }, 10*time.Second) {
+		r.Inconc("c16 node-joins-during-refresh: no established control connection")
+		return
+	}
+	ctl := bed.Cluster.EstablishedControlConns()[0]
+	inet := func(h int) *primitive.Inet {
+		return &primitive.Inet{Addr: net.ParseIP(bed.Cluster.HostIP(h)), Port: int32(bed.Cluster.Port)}
+	}
+	var fired int32
+	bed.Cluster.SystemOverride = func(x *fakecass.Conn, table string) message.Message {
+		if x.ID == ctl.ID && table == "peers" && atomic.CompareAndSwapInt32(&fired, 0, 1) {
+			// the peers table has been "read" (host 4 is not listed when the default answer is built right after this call);
+			// the event goes out in front of the answer, the node becomes visible a moment later
+			bed.Cluster.Emit(&message.TopologyChangeEvent{ChangeType: primitive.TopologyChangeTypeNewNode, Address: inet(4)})
+			go func() { time.Sleep(5 * time.Millisecond); bed.Cluster.SetListed(4, true) }()
+		}
+		return nil
+	}
+	// the refresh that the race happens in is started by host 3 joining in the ordinary way
+	bed.Cluster.SetListed(3, true)
+	bed.Cluster.Emit(&message.TopologyChangeEvent{ChangeType: primitive.TopologyChangeTypeNewNode, Address: inet(3)})
+	pooled := func(h int) bool {
+		for _, x := range bed.Cluster.Hosts[h-1].Conns() {
+			if !x.IsRegistered() && x.Ver() != 0 && !x.IsClosed() {
+				return true
+			}
+		}
+		return false
+	}
+	r.Eval(1)
+	r.Obs("node_joins_during_refresh_cases", 1)
+	if !waitFor(func() bool { return atomic.LoadInt32(&fired) == 1 && pooled(3) }, 20*time.Second) {
+		r.Inconc("c16 node-joins-during-refresh: the first refresh was not observed")
+		return
+	}
+	r.NonTrivial("node-joins-during-refresh")
+	// premise of the verdict: the control connection is up and answers (a later refresh would be possible)
+	ok := waitFor(func() bool { return pooled(4) }, 15*time.Second)
+	if !ok {
+		cl, cerr := bed.ReadyClient(primitive.ProtocolVersion4, "")
+		served := cerr == nil && ProgressSteps(cl, 50, 900)
+		if cl != nil {
+			cl.Close()
+		}
+		if !served || len(bed.Cluster.EstablishedControlConns()) == 0 {
+			r.Inconc("c16 node-joins-during-refresh: the proxy is not serving / has no control connection")
+			return
+		}
+		r.Violate(mon.Violation{Signature: "C16/added-host-never-connected/node-joined-during-a-refresh", Detail: "host 4's NEW_NODE event reached the proxy while a refresh (started for host 3) was waiting for its system.peers answer, which did not list host 4 yet; 15 s later (refresh window 20 ms) the proxy has no pooled connection to host 4 although the peers table lists it and the control connection is up: the event was lost", Scenario: scenario})
+	}
+}
+
 func c16RefreshWithEvent(c *Ctx, idx int, during string) {
 	r := c.R
 	scenario := map[string]interface{}{"kind": "refresh-with-event", "idx": idx, "during": during}
